@@ -7,6 +7,8 @@ entry points) has no model column: the property there is "not a panic", judged b
 script on the implementation's answer alone.
 -/
 import ZygoVerif.Model.Parser
+import ZygoVerif.Model.CoreSexp
+import ZygoVerif.Model.GenSites
 import ZygoVerif.Driver.Proto
 import ZygoVerif.Driver.Lex
 import ZygoVerif.Driver.Parse
@@ -42,11 +44,54 @@ def enumHash (alpha : Array Char) (len : Nat) : Nat → Nat → Nat → Nat
   | 0, _, h => h
   | n + 1, i, h => enumHash alpha len n (i + 1) (hashStep h (parseRecord (enumString alpha len i)))
 
+/-! ### The arity prologues of the special-form generators (`Model/GenSites.lean`)
+
+For a text that is ONE list with a special-form head and whose atoms are all plain (decimal
+ints, lower-case identifiers, strings: what the small reader of `Model/CoreSexp.lean` classifies
+the way the real parser does), the model says whether the prologue of that `Generate*`
+refuses the argument list (`G:err`) — then `LoadString` must fail in the implementation. -/
+
+open ZygoVerif.Core in
+def plainAtom (s : String) : Bool :=
+  !s.isEmpty && s.toList.all (fun c => 'a' ≤ c && c ≤ 'z') && s != "true" && s != "false" && s != "nil"
+
+open ZygoVerif.Core in
+partial def plainSx : Sx → Bool
+  | .int v => 0 ≤ v
+  | .str _ => true
+  | .sym s => plainAtom s
+  | .list xs => xs.all plainSx
+  | .arr xs => xs.all plainSx
+
+open ZygoVerif.Core in
+partial def argOf : Sx → GenSites.Arg
+  | .sym s => .sym s
+  | .str _ => .str
+  | .int _ => .other
+  | .arr xs => .arr (xs.map argOf)
+  | .list [Sx.sym "quote", Sx.sym _] => .pair true
+  | .list [] => .other          -- `()` is SexpNull, not a pair
+  | .list _ => .pair false
+
+open ZygoVerif.Core in
+def prologueRecord (txt : List Char) : String :=
+  match readAll (String.ofList txt) with
+  | some [Sx.list (Sx.sym h :: args)] =>
+    -- `mdef` recognises quoted targets with the laxer isQuotedSymbol: only symbol targets here
+    let mdefOk := h != "mdef" || args.dropLast.all (fun a => match a with | Sx.list _ => false | _ => true)
+    if GenSites.formNames.contains h && args.all plainSx && mdefOk && !(String.ofList txt).contains '~' then
+      match GenSites.genForm (fun _ => pure ()) (fun _ => true) h (args.map argOf) with
+      | .ok _ => "G:ok"
+      | .error .err => "G:err"
+      | .error .panic => "G:panic"
+    else "G:*"
+  | _ => "G:*"
+
 def handle (toks : List String) : String :=
   match toks with
   | ["s", _, c] =>
     match toChars? c with
-    | some txt => s!"P:{parseRecord txt}\t-"
+    | some txt => s!"P:{parseRecord txt} {prologueRecord txt}\t-"
     | none => "bad-op\t-"
   | ["e", a, l, f, t] =>
     match alphabet a, l.toNat?, f.toNat?, t.toNat? with
